@@ -421,3 +421,23 @@ Fixpoint run_cases {R} (pol : policy) (keep : bool) (ec : exe_conf) (cases : lis
       let '(s', os) := run_cases pol keep ec cs (cw, st) in
       (s', o :: os)
   end.
+
+(** ** Instruction objects of a suite are shared by its cases
+
+    [_TestCaseInstructionsFromTestSuiteAdder] holds the suite document parsed ONCE; [transform]
+    splices the same instruction objects into every case of the suite (a case file, in contrast, is
+    parsed anew for every run).  An object that kept a memory [M] of what it saw would carry it from
+    one case to the next.  A case together with such objects: its behaviour given the memory, and
+    what the objects remember after the case — a function of what they saw during it. *)
+Record shared_case (R M : Type) := SHC { shc_sem : M -> case_sem R; shc_remember : M -> obs R -> M }.
+Arguments SHC {R M}. Arguments shc_sem {R M}. Arguments shc_remember {R M}.
+
+Fixpoint run_cases_shared {R M} (pol : policy) (keep : bool) (ec : exe_conf) (cases : list (shared_case R M)) (m : M)
+         (s : cworld * store) : cworld * store * list (obs R) * M :=
+  match cases with
+  | [] => (s, [], m)
+  | c :: cs =>
+      let '(cw, st, o) := run_case pol keep ec (shc_sem c m) s in
+      let '(s', os, m') := run_cases_shared pol keep ec cs (shc_remember c m o) (cw, st) in
+      (s', o :: os, m')
+  end.
